@@ -492,6 +492,11 @@ func callSSA(i *interpreter, caller *frame, callpos token.Pos, fn *ssa.Function,
 		caller: caller, // for panic/recover
 		fn:     fn,
 	}
+	if caller != nil && fn.Pkg != nil && fn.Name() == "init" && fn.Parent() == nil && fn.Signature.Recv() == nil && fn.Synthetic != "" {
+		// a package initialiser invoked from another package's init: packages are initialised
+		// lazily on first use of their globals (engine.go), never eagerly.
+		return nil
+	}
 	if ext := i.lookupExternal(fn); ext != nil {
 		if i.Trace {
 			fmt.Fprintf(os.Stderr, "%*sext %s\n", i.path.depth, "", fn)
